@@ -82,6 +82,10 @@ func (p c05) Gen(r *simhook.Rand, tier string, idx int) harness.Scenario {
 		sc.Headerless = true
 		sc.Class = "headerless"
 	}
+	if r.Chance(1, 4) {
+		// a configured connection limit that is never reached: the listener's accounting wraps the connection
+		sc.Env.ConnLimit = uint32(n + r.Intn(3))
+	}
 	if !sc.Headerless && r.Chance(1, 8) {
 		// class "busy-beyond-idle-timeout": connections that live several idle-timeout periods but are never idle
 		// for more than a third of one (the timeout counts from the last byte of a direction, not from its first)
@@ -98,6 +102,35 @@ func (p c05) Gen(r *simhook.Rand, tier string, idx int) harness.Scenario {
 			sc.Conns = append(sc.Conns, TCPConn{Name: fmt.Sprintf("c%d", i), C2S: mk(), S2C: mk()})
 		}
 		sc.HorizonS = 600 + 60*T/1000
+		if sc.Env.ConnLimit > 0 && int(sc.Env.ConnLimit) < len(sc.Conns) {
+			sc.Env.ConnLimit = uint32(len(sc.Conns))
+		}
+		return sc
+	}
+	if !sc.Headerless && r.Chance(1, 8) {
+		// class "other-host-removed": one backend refuses connections from the start (and is still a member: the
+		// proxy learns that from dialing only) and is removed from the service while paced streams to the other
+		// backends are under way. No relay was ever established to it, so no established relay may notice.
+		sc.Class = "other-host-removed"
+		nb := 2 + r.Intn(2)
+		sc.Env.Backends = nb
+		sc.Env.IdleMs = 600000
+		down := r.Intn(nb)
+		sc.Faults = []TCPFault{{Kind: "backend-down", Node: down, AfterStart: 1}, {Kind: "host-remove", Node: down, AtMs: 400 + r.Intn(2500)}}
+		if r.Chance(1, 3) {
+			sc.Faults = append(sc.Faults, TCPFault{Kind: "host-add", Node: down, AtMs: sc.Faults[1].AtMs + 200 + r.Intn(1000)})
+		}
+		for i := 0; i < 2+r.Intn(5); i++ {
+			mk := func() StreamSpec {
+				chunk := 100 + r.Intn(900)
+				return StreamSpec{Len: chunk * (4 + r.Intn(30)), Chunks: []int{chunk}, GapMs: []int{50 + r.Intn(150)}}
+			}
+			sc.Conns = append(sc.Conns, TCPConn{Name: fmt.Sprintf("c%d", i), C2S: mk(), S2C: mk(), AfterMs: 100 + r.Intn(600)})
+		}
+		if sc.Env.ConnLimit > 0 && int(sc.Env.ConnLimit) < len(sc.Conns) {
+			sc.Env.ConnLimit = uint32(len(sc.Conns))
+		}
+		sc.HorizonS = 900
 		return sc
 	}
 	defer func() {
@@ -175,8 +208,22 @@ func (p c05) Run(t *testing.T, s harness.Scenario) harness.Outcome {
 	sc := s.(*TCPScenario)
 	w := newTCPWorld(sc)
 	halfClose := false
+	// eofDue: since when a receiver has had every byte of a sender that has half-closed. From there the end-of-stream
+	// is four scheduling hops away (FIN to the proxy, the relay's read, its half-close, FIN to the receiver), each of
+	// which the scheduler may delay by the timer slack at most; a relay that only ends the stream through its idle
+	// timeout (minutes) has not propagated the half-close.
+	eofDue := map[*peer]time.Time{}
+	eofBound := 20*time.Second + 8*time.Duration(sc.SlackMs)*time.Millisecond
 	w.step = func(w *tcpWorld) *simrtViolation {
 		for _, p := range append(append([]*peer(nil), w.clients...), w.servers...) {
+			if o := p.other; o != nil && o.doneSending && o.spec.Finish == "" && !anyFullClose(p, o) && !p.eof && !p.reset && !o.reset && p.recvN == o.spec.Len &&
+				sc.Env.IdleMs > 0 && eofBound < time.Duration(sc.Env.IdleMs)*time.Millisecond*9/10 {
+				if since, ok := eofDue[p]; !ok {
+					eofDue[p] = time.Now()
+				} else if time.Since(since) > eofBound && !idleExcused(sc, o) {
+					return &simrtViolation{Clause: "eof-delivered", Detail: fmt.Sprintf("%s finished sending and half-closed, %s has had all %d bytes for %v and has not seen end-of-stream (idle timeout %dms)", o.name, p.name, p.recvN, time.Since(since), sc.Env.IdleMs), Sites: w.blockedSites("pipeConn")}
+				}
+			}
 			if p.eof && !p.doneSending && p.other != nil && p.recvN > 0 && p.sent > 0 {
 				halfClose = true
 			}
@@ -207,7 +254,8 @@ func (p c05) Run(t *testing.T, s harness.Scenario) harness.Outcome {
 			}
 			if o == nil {
 				// no backend stream header arrived: fine only when the backend side had nothing to say and the proxy closed
-				if c.recvN == 0 && (c.eof || c.reset) && noBackendFor(w, c) && !idleExcusedAnyServer(sc, w) {
+				if c.recvN == 0 && (c.eof || c.reset) && noBackendFor(w, c) && !idleExcusedAnyServer(sc, w) && sc.Class != "other-host-removed" {
+					// (in that class a backend refuses connections: a connection picked for it is closed, legitimately)
 					return &simrtViolation{Clause: "connection-relayed", Detail: fmt.Sprintf("%s was closed by the proxy without being relayed to any backend although backends were available", c.name)}
 				}
 				if !c.eof && !c.reset {
